@@ -568,9 +568,16 @@ def rule_omp(ctx, m):
         assigned = assigned_vars([loop])
         for v in sorted(assigned):
             base = v.split('#')[0]
-            ok = v in declared or base in priv or v in priv
+            ok = v in declared or base in priv or v in priv or v == getattr(loop, 'var', None)      # the iteration variable of the associated loop is private by rule
             ctx.check(ok, 'R-OMP', unit.path, fname, 'scalar %s' % v,
                       'scalar `%s` is assigned inside the parallel region but is neither declared in it nor listed in private(...): threads race on it' % v, st.line)
+        nested_in = [o for fn2, o in regions if o is not st and any(t is st for t in walk_stmts(o.body))]
+        if nested_in:
+            # a parallel region inside a parallel region: variables that are private in the enclosing region are SHARED by the threads of the inner team unless
+            # the inner directive privatises them again -- the scalar obligations above (against this directive's own clause list) are what decides it; the
+            # slot and iteration-space obligations are checked on the enclosing region, which sees this loop as its column loop
+            ctx.count('nested OpenMP regions')
+            continue
         # stores through pointers
         bases = {}
         for s in walk_stmts([loop]):
@@ -587,15 +594,18 @@ def rule_omp(ctx, m):
         if not outs:
             ctx.violation('R-OMP', unit.path, fname, 'output store', 'the region stores no result', st.line)
             continue
-        inner = None
+        inner = inner_top = None
         for t in loop.body:
             if t.k in ('for', 'loop'):
-                inner = t
+                inner = inner_top = t
+            elif t.k == 'omp' and t.body and t.body[0].k == 'for':
+                inner = t.body[0]          # the column loop run by a nested team
+                inner_top = t
         if inner is None or inner.k != 'for':
             raise AnalysisError('unrecognised shape: inner loop of region in %s' % fname)
         slot_vars = set()
         # the slot of every reachable store, evaluated symbolically for the triangular and the rectangular case
-        pre_env = Exec().run(loop.body[:loop.body.index(inner)], Env())
+        pre_env = Exec().run(loop.body[:loop.body.index(inner_top)], Env())
         if pre_env is None:
             raise AnalysisError('unrecognised shape: row body of region in %s leaves before the column loop' % fname)
         ienv = pre_env.copy()
@@ -623,13 +633,24 @@ def rule_omp(ctx, m):
                 ok = len(adds) == 2 and len(base_ok) == 1 and len(cnts) == 1
                 if ok:
                     slot_vars.add(cnts[0][1])
+                elif len(base_ok) == 1:
+                    # closed form: row base + (column - first column of the row), no counter to keep in step
+                    try:
+                        lo_c = peval_fields(norm_minmax(subst_expr(inner.lo, pre_env)), z) if inner.lo is not None else None
+                        rest = None
+                        for a in adds:
+                            if a is not base_ok[0]:
+                                rest = sym.from_ir(a) if rest is None else add(rest, sym.from_ir(a))
+                        ok = lo_c is not None and rest is not None and sym.sub(rest, sym.sub(sym.var(inner.var), sym.from_ir(lo_c))) == C(0)
+                    except sym.Unsupported:
+                        ok = False
                 ctx.check(ok, 'R-OMP', unit.path, fname, 'output slot (%s)' % ('triangular' if triu else 'rectangular'),
                           'the output subscript must be rls[row] + k (triangular) or (ce - cb) * row + k (rectangular) with k the per-row pair counter; '
                           'found %s' % fmt(idx), stm.line)
         for cvar in slot_vars:
             ok_priv = cvar in priv
             resets = [s for s in loop.body if s.k == 'assign' and s.target == ('var', cvar) and s.value == ('num', 0)]
-            ok_reset = len(resets) == 1 and loop.body.index(resets[0]) < loop.body.index(inner)
+            ok_reset = len(resets) == 1 and loop.body.index(resets[0]) < loop.body.index(inner_top)
             incs = paths_increments(inner.body, cvar)
             ok_inc = incs == {1}
             others = [s for s in loop.body if s.k == 'assign' and s.target == ('var', cvar) and s not in resets]
@@ -642,7 +663,7 @@ def rule_omp(ctx, m):
         _rows_ok(ctx, unit.path, fname, loop, env, amap, offset='rel')
         benv = Env()
         ex2 = Exec()
-        benv = ex2.run(loop.body[:loop.body.index(inner)], benv)
+        benv = ex2.run(loop.body[:loop.body.index(inner_top)], benv)
         rowv = None
         for v, val in benv.items():
             if val == ('bin', '+', ('attr', ('var', 'block'), 'rb'), ('var', loop.var)):
